@@ -35,7 +35,7 @@ def demo():
         cmd = 'RUSTFLAGS="--cfg fe2o3_amqp_verif" CARGO_TARGET_DIR=%s/target/demo cargo test --offline -j12 -p %s %s --test seed_demo -- --test-threads=1 2>&1' % (W, crate, feats)
         r = sh(cmd, timeout=3000)
         out = r.stdout[-3000:]
-        if 'could not compile' not in r.stdout: break
+        if 'could not compile' not in r.stdout and 'running 0 tests' not in r.stdout.split('seed_demo')[-1]: break
     sh('rm -f %s/tests/seed_demo.rs' % crate)
     return r.returncode, out
 rc1, out1 = demo()
